@@ -415,12 +415,6 @@ class NetworkServiceAccessPoint(ServiceAccessPoint, Server, DebugContents):
         npdu.pduDestination = None
         npdu.npduDADR = apdu.pduDestination
 
-        # we might already be waiting for a path for this network
-        if dnet in self.pending_nets:
-            if _debug: NetworkServiceAccessPoint._debug("    - already waiting for path")
-            self.pending_nets[dnet].append(npdu)
-            return
-
         # look for routing information from the network of one of our
         # adapters to the destination network
         router_info = None
@@ -445,6 +439,12 @@ class NetworkServiceAccessPoint(ServiceAccessPoint, Server, DebugContents):
 
         else:
             if _debug: NetworkServiceAccessPoint._debug("    - no known path to network")
+
+            # we might already be waiting for a path for this network
+            if dnet in self.pending_nets:
+                if _debug: NetworkServiceAccessPoint._debug("    - already waiting for path")
+                self.pending_nets[dnet].append(npdu)
+                return
 
             # add it to the list of packets waiting for the network
             net_list = self.pending_nets.get(dnet, None)
